@@ -29,7 +29,7 @@ def gen_case(g):
             break
     n = len(descs)
     fb_links, outside = {}, []
-    receivers = g.sample(res, min(len(res), g.choice([1, 1, 2])))
+    receivers = g.sample(res, min(len(res), g.choice([1, 2, 2])))
     for r in receivers:
         where = g.choice(["down", "down", "up", "outside", "self_down"])
         cands_down = [j for j in range(n) if j > r and j not in receivers]
@@ -66,6 +66,10 @@ def gen_case(g):
         if kind.endswith("forced"):
             op["shift_fb"] = g.chance(0.7)
             op["key"] = g.choice(["sender", "receiver"])
+            # with several feedback loops, one of them may be left free while the others are forced: the free one goes on
+            # delivering its sender's previous state
+            if len(fb_links) >= 2 and g.chance(0.6):
+                op["leave_free"] = g.randint(0, len(fb_links) - 1)
         ops.append(op)
     return {"kind": "c05", "descs": descs, "edges": edges, "fb": {str(k): v for k, v in fb_links.items()},
             "outside": outside, "ops": ops, "ridge_sender": ridge_sender}
@@ -76,8 +80,10 @@ def forced_targets(b, case, op):
     unfitted Ridge sender if there is one (the library demands a value for every trainable node)"""
     keys = {}
     n = len(case["descs"])
-    for r_s, s in case["fb"].items():
+    for li, (r_s, s) in enumerate(sorted(case["fb"].items(), key=lambda kv: int(kv[0]))):
         r = int(r_s)
+        if op.get("leave_free") == li and case["ridge_sender"] != s:
+            continue
         ri = b.idx[b.nodes[r]]
         si = b.idx[b.nodes[s]] if s < n else b.idx[b.outside[s - n][1]]
         dim = b.all_descs[si]["out_dim"]
